@@ -31,6 +31,8 @@ type verifC37Pending struct {
 }
 
 type verifC37H struct {
+	broker  *MemoryMapBroker
+	cursors map[string]string
 	node    *Node
 	client  *Client
 	tr      *testTransport
@@ -125,10 +127,12 @@ func (h *verifC37H) reset(limit, maxlen int) error {
 		return err
 	}
 	node.SetMapBroker(broker)
+	h.broker = broker
+	h.cursors = map[string]string{}
 	node.OnConnect(func(client *Client) {
 		client.OnSubscribe(func(e SubscribeEvent, cb SubscribeCallback) {
 			rep := SubscribeReply{}
-			if h.nextKind == "m" {
+			if h.nextKind == "m" || h.nextKind == "p" {
 				rep.Options.Type = SubscriptionTypeMap
 			}
 			if h.nextAsync {
@@ -254,7 +258,7 @@ func (t *verifC37SlowTransport) WriteMany(messages ...[]byte) error {
 // verifC37Slow: a connection whose transport stops taking data gets k further messages of encoded
 // length L queued (the first message sent after the stall is in the writer's hands, not in the
 // queue).  Reports L, whether the connection was closed and with which code.
-func verifC37Slow(qmax, k int) (res string) {
+func verifC37Slow(qmax, k, delayMs int, timer bool) (res string) {
 	defer func() {
 		if r := recover(); r != nil {
 			res = "PANIC"
@@ -263,6 +267,13 @@ func verifC37Slow(qmax, k int) (res string) {
 	node, err := New(Config{LogLevel: LogLevelError, LogHandler: func(entry LogEntry) {}, ClientQueueMaxSize: qmax})
 	if err != nil {
 		return "slow-setup-failed"
+	}
+	delay := time.Duration(delayMs) * time.Millisecond
+	if delayMs > 0 {
+		// the application selects batched writes (goroutine with write delay, or timer driven)
+		node.OnConnecting(func(ctx context.Context, e ConnectEvent) (ConnectReply, error) {
+			return ConnectReply{WriteDelay: delay, WriteWithTimer: timer}, nil
+		})
 	}
 	if err := node.Run(); err != nil {
 		return "slow-setup-failed"
@@ -290,23 +301,35 @@ func verifC37Slow(qmax, k int) (res string) {
 	c.triggerConnect()
 	c.scheduleOnConnectTimers()
 	synctest.Wait()
+	time.Sleep(3 * delay)
+	synctest.Wait()
 	for len(sink) > 0 {
 		<-sink
 	}
 	data := []byte(`{"verif":"0123456789"}`)
 	_ = c.Send(data)
 	synctest.Wait()
+	time.Sleep(3 * delay)
+	synctest.Wait()
 	if len(sink) != 1 {
 		return "slow-setup-failed"
 	}
 	L := len(<-sink)
-	close(tr.armed)
-	_ = c.Send(data) // taken by the flusher, which now blocks in the transport
-	synctest.Wait()
+	if delayMs == 0 {
+		close(tr.armed)
+		_ = c.Send(data) // taken by the flusher, which now blocks in the transport
+		synctest.Wait()
+	}
+	// with a write delay nothing is written before the delay has passed (virtual time stands still
+	// here), so the k messages are all pending
 	for i := 0; i < k; i++ {
 		_ = c.Send(data)
 	}
-	close(tr.gate)
+	if delayMs == 0 {
+		close(tr.gate)
+	}
+	synctest.Wait()
+	time.Sleep(3 * delay)
 	synctest.Wait()
 	c.mu.RLock()
 	closed := c.status == statusClosed
@@ -340,8 +363,10 @@ func (h *verifC37H) step(ws []string) (res string) {
 		if !ok1 || !ok2 {
 			return "bad-op"
 		}
+		d, _ := verifC37Int(ws, "delay")
+		tm, _ := verifC37Int(ws, "timer")
 		h.stop()
-		return verifC37Slow(m, k)
+		return verifC37Slow(m, k, d, tm != 0)
 	}
 	if ws[0] == "reset" {
 		l, ok1 := verifC37Int(ws, "limit")
@@ -383,6 +408,20 @@ func (h *verifC37H) step(ws []string) (res string) {
 			req.Phase = MapPhaseState
 			req.Limit = 100
 		}
+		if kind == "p" {
+			// paged map subscribe: the channel holds two keys and the page size is one, so after the
+			// first state page the subscription is still loading (entry in c.mapSubscribing)
+			if _, ok := h.cursors[req.Channel]; !ok {
+				for _, k := range []string{"a", "b"} {
+					if _, err := h.broker.Publish(context.Background(), req.Channel, k, MapPublishOptions{Data: []byte(`{"v":1}`)}); err != nil {
+						return "publish-failed"
+					}
+				}
+			}
+			req.Type = int32(SubscriptionTypeMap)
+			req.Phase = MapPhaseState
+			req.Limit = 1
+		}
 		before := len(h.pending)
 		err := c.handleSubscribe(req, &protocol.Command{Id: 1}, time.Now(), rw.rw)
 		synctest.Wait()
@@ -396,6 +435,42 @@ func (h *verifC37H) step(ws []string) (res string) {
 		}
 		if async != 0 && !h.pending[len(h.pending)-1].done {
 			return h.state("pending")
+		}
+		if kind == "p" && len(rw.replies) > 0 && rw.replies[len(rw.replies)-1].Error == nil {
+			sub := rw.replies[len(rw.replies)-1].Subscribe
+			if sub != nil && sub.Cursor != "" {
+				h.cursors[req.Channel] = sub.Cursor
+				return h.state("loading")
+			}
+			return h.state("ok-unpaged")
+		}
+		return h.state(verifC37Reply(rw))
+	case "page":
+		ch, ok1 := verifC37Int(ws, "ch")
+		l, ok2 := verifC37Int(ws, "len")
+		if !ok1 || !ok2 {
+			return "bad-op"
+		}
+		name := verifC37Name(ch, l)
+		cur, ok := h.cursors[name]
+		if !ok || cur == "" {
+			return "bad-op"
+		}
+		h.cursors[name] = ""
+		rw := testReplyWriterWrapper()
+		h.nextAsync, h.nextOK, h.nextKind, h.nextRW = false, true, "p", rw
+		err := c.handleSubscribe(&protocol.SubscribeRequest{Channel: name, Type: int32(SubscriptionTypeMap),
+			Phase: MapPhaseState, Limit: 1, Cursor: cur}, &protocol.Command{Id: 4}, time.Now(), rw.rw)
+		synctest.Wait()
+		if err != nil {
+			return h.state(verifC37Err(err))
+		}
+		if len(rw.replies) > 0 && rw.replies[len(rw.replies)-1].Error == nil {
+			sub := rw.replies[len(rw.replies)-1].Subscribe
+			if sub != nil && sub.Cursor != "" {
+				h.cursors[name] = sub.Cursor
+				return h.state("loading")
+			}
 		}
 		return h.state(verifC37Reply(rw))
 	case "complete":
